@@ -3,6 +3,7 @@ package main
 // Engine G (DESIGN §3.G): include-resolution typestate (AST + go/cfg).
 
 import (
+	"golang.org/x/tools/go/ssa"
 	"fmt"
 	"go/ast"
 	"go/token"
@@ -543,6 +544,7 @@ func ruleLoaderCycle(c *Ctx) {
 		})
 	}
 	c.census("G-CONTINUE", "load errors built on the include recursion", nErr, 4)
+	ruleCanonicalPaths(c)
 }
 
 func insideNestedBreakable(root ast.Node, target ast.Node) bool {
@@ -828,7 +830,181 @@ func ruleLoaderCache(c *Ctx) {
 		}
 		c.census("G-STATE", "reference-typed fields of the loader", nState, 1)
 	}
+	ruleCacheFields(c)
 	ruleInvalidate(c)
+}
+
+// ruleCacheFields (G-CACHEFIELDS): everything the loader keeps per cached file is handed on when the file is
+// served from the cache: each field of the cache entry type is read from an entry obtained by the cache
+// lookup (a field that is only written, or only read from the freshly built entry, is lost on a hit and the
+// result of a load then depends on what was loaded before).
+func ruleCacheFields(c *Ctx) {
+	ipk := c.P.SSAPkg("internal/include")
+	var lookups []*ssa.Lookup
+	var entry *types.Struct
+	var entryName string
+	for _, f := range c.P.ModuleFuncs() {
+		if f.Pkg != ipk {
+			continue
+		}
+		for _, b := range f.Blocks {
+			for _, ins := range b.Instrs {
+				lk, ok := ins.(*ssa.Lookup)
+				if !ok {
+					continue
+				}
+				ld, ok := lk.X.(*ssa.UnOp)
+				if !ok {
+					continue
+				}
+				fa, ok := ld.X.(*ssa.FieldAddr)
+				if !ok || !typeHasSuffix(fa.X.Type(), "include.Loader") {
+					continue
+				}
+				mt, ok := lk.X.Type().Underlying().(*types.Map)
+				if !ok {
+					continue
+				}
+				et := mt.Elem()
+				if pt, ok := et.Underlying().(*types.Pointer); ok {
+					et = pt.Elem()
+				}
+				if st, ok := et.Underlying().(*types.Struct); ok && strings.Contains(types.TypeString(et, nil), modPath) {
+					lookups = append(lookups, lk)
+					entry, entryName = st, shortQual(types.TypeString(et, nil))
+				}
+			}
+		}
+	}
+	c.census("G-CACHEFIELDS", "lookups in the loader's per-file cache", len(lookups), 1)
+	if entry == nil {
+		return
+	}
+	readOnHit := map[int]bool{}
+	for _, f := range c.P.ModuleFuncs() {
+		if f.Pkg != ipk {
+			continue
+		}
+		for _, b := range f.Blocks {
+			for _, ins := range b.Instrs {
+				var base ssa.Value
+				idx := -1
+				switch x := ins.(type) {
+				case *ssa.FieldAddr:
+					if st, ok := x.X.Type().Underlying().(*types.Pointer).Elem().Underlying().(*types.Struct); ok && st == entry {
+						loaded := false
+						for _, r := range *x.Referrers() {
+							if u, ok := r.(*ssa.UnOp); ok && u.Op == token.MUL {
+								loaded = true
+							}
+						}
+						if loaded {
+							base, idx = x.X, x.Field
+						}
+					}
+				case *ssa.Field:
+					if st, ok := x.X.Type().Underlying().(*types.Struct); ok && st == entry {
+						base, idx = x.X, x.Field
+					}
+				}
+				if base == nil {
+					continue
+				}
+				sl := backSlice(base)
+				for _, lk := range lookups {
+					if sl[lk] {
+						readOnHit[idx] = true
+					}
+				}
+			}
+		}
+	}
+	for i := 0; i < entry.NumFields(); i++ {
+		c.check(readOnHit[i], "G-CACHEFIELDS", entryName, "cached "+entry.Field(i).Name()+" is used on a cache hit", entry.Field(i).Pos(),
+			"the field is read from an entry returned by the cache lookup", "field "+entry.Field(i).Name()+" of the cache entry is stored but never read from an entry that was found in the cache: what it holds (e.g. the file's parse errors) is reported only by the load that parsed the file and is missing from every later load")
+	}
+}
+
+// ruleCanonicalPaths (G-CANON): a file is identified by its resolved path (visited set, cache, result maps), so
+// every path the resolver hands out is the result of a canonicalising library call.
+func ruleCanonicalPaths(c *Ctx) {
+	ipk := c.P.SSAPkg("internal/include")
+	canonCall := func(v ssa.Value) bool {
+		call, ok := v.(*ssa.Call)
+		if !ok {
+			return false
+		}
+		cal := call.Common().StaticCallee()
+		if cal == nil || cal.Pkg == nil {
+			return false
+		}
+		switch cal.Pkg.Pkg.Path() + "." + cal.Name() {
+		case "path/filepath.Clean", "path/filepath.Join", "path/filepath.Abs", "path/filepath.EvalSymlinks":
+			return true
+		}
+		return false
+	}
+	var canon func(v ssa.Value, seen map[ssa.Value]bool) bool
+	canon = func(v ssa.Value, seen map[ssa.Value]bool) bool {
+		if seen[v] {
+			return true
+		}
+		seen[v] = true
+		switch x := v.(type) {
+		case *ssa.Const:
+			return true // "" next to an error
+		case *ssa.Call:
+			return canonCall(x)
+		case *ssa.Extract:
+			if call, ok := x.Tuple.(*ssa.Call); ok {
+				if canonCall(call) {
+					return true
+				}
+				if cal := call.Common().StaticCallee(); cal != nil && cal.Pkg != nil && cal.Pkg.Pkg.Path() == "os" && cal.Name() == "UserHomeDir" {
+					return true // the environment's home directory, taken as given
+				}
+			}
+		case *ssa.Phi:
+			for _, e := range x.Edges {
+				if !canon(e, seen) {
+					return false
+				}
+			}
+			return true
+		}
+		return false
+	}
+	n := 0
+	for _, f := range c.P.ModuleFuncs() {
+		if f.Pkg != ipk || f.Signature.Results().Len() != 2 || types.TypeString(f.Signature.Results().At(0).Type(), nil) != "string" || types.TypeString(f.Signature.Results().At(1).Type(), nil) != "error" {
+			continue
+		}
+		// a path resolver: some returned string comes from a filepath call
+		var rets []*ssa.Return
+		resolver := false
+		for _, b := range f.Blocks {
+			for _, ins := range b.Instrs {
+				if r, ok := ins.(*ssa.Return); ok {
+					rets = append(rets, r)
+					for v := range backSlice(r.Results[0]) {
+						if canonCall(v) {
+							resolver = true
+						}
+					}
+				}
+			}
+		}
+		if !resolver {
+			continue
+		}
+		for i, r := range rets {
+			n++
+			desc := fmt.Sprintf("returned path #%d is canonical", i+1)
+			c.check(canon(r.Results[0], map[ssa.Value]bool{}), "G-CANON", funcName(f), desc, r.Pos(),
+				"the returned path is the result of filepath.Clean / Join / Abs on every path", "the resolver can return a path that did not pass filepath.Clean/Join/Abs (e.g. an absolute include as written): `dir/../a` and `dir/./a` then name different files to the visited set, the cache and the result, so a file is loaded twice or a cycle goes unnoticed")
+		}
+	}
+	c.census("G-CANON", "return sites of include-path resolvers", n, 2)
 }
 
 // ruleInvalidate (G-INVALIDATE): change and save handlers invalidate the loader cache on every path that
@@ -876,52 +1052,98 @@ func ruleInvalidate(c *Ctx) {
 			}
 			n++
 			fname := c.P.declName(fd)
-			var calls []*ast.CallExpr
-			ast.Inspect(fd.Body, func(x ast.Node) bool {
-				if call, ok := x.(*ast.CallExpr); ok {
-					q := qualName(calleeOf(info, call))
-					if strings.HasSuffix(q, "include.Loader.InvalidateFile") || strings.HasSuffix(q, "include.Loader.ClearCache") {
-						calls = append(calls, call)
+			// on SSA: the invalidation must not be control dependent on the existence of a workspace (whether the
+			// guard is written as a nested if or as an early return) and must not sit in a loop that may run zero times
+			F := c.P.ssaOf(fd)
+			if F == nil {
+				c.undecided("G-INVALIDATE", fname, role+" invalidates the include cache", fd.Pos(), "no SSA form of the handler")
+				continue
+			}
+			type site struct {
+				call ssa.CallInstruction
+				blks []*ssa.BasicBlock
+			}
+			var sites []site
+			isInvalidation := func(cal *ssa.Function) bool {
+				if cal == nil || cal.Signature.Recv() == nil || !typeHasSuffix(cal.Signature.Recv().Type(), "include.Loader") || cal.Object() == nil || !cal.Object().Exported() {
+					return false
+				}
+				// drops cache entries: deletes from / replaces a map field of the loader
+				for _, b := range cal.Blocks {
+					for _, ins := range b.Instrs {
+						switch x := ins.(type) {
+						case *ssa.Call:
+							if bi, ok := x.Call.Value.(*ssa.Builtin); ok && bi.Name() == "delete" {
+								return true
+							}
+						case *ssa.Store:
+							if fa, ok := x.Addr.(*ssa.FieldAddr); ok {
+								if _, isMap := fa.Type().Underlying().(*types.Pointer).Elem().Underlying().(*types.Map); isMap {
+									return true
+								}
+							}
+						}
 					}
 				}
-				return true
-			})
-			if len(calls) == 0 {
+				return false
+			}
+			var scan func(g *ssa.Function, outer []*ssa.BasicBlock, depth int)
+			scan = func(g *ssa.Function, outer []*ssa.BasicBlock, depth int) {
+				for _, b := range g.Blocks {
+					for _, ins := range b.Instrs {
+						call, ok := ins.(ssa.CallInstruction)
+						if !ok {
+							continue
+						}
+						if _, isGo := ins.(*ssa.Go); isGo {
+							continue
+						}
+						cal := call.Common().StaticCallee()
+						if isInvalidation(cal) {
+							sites = append(sites, site{call, append(append([]*ssa.BasicBlock{}, outer...), b)})
+						} else if cal != nil && inModule(cal) && cal.Blocks != nil && cal.Pkg == F.Pkg && depth < 2 {
+							scan(cal, append(append([]*ssa.BasicBlock{}, outer...), b), depth+1)
+						}
+					}
+				}
+			}
+			scan(F, nil, 0)
+			if len(sites) == 0 {
 				c.finding("G-INVALIDATE", fname, role+" invalidates the include cache", fd.Pos(), "the "+role+" handler never invalidates the loader cache: an edited or saved included file stays cached")
 				continue
 			}
 			okAny := false
 			why := ""
-			for _, call := range calls {
+			for _, st := range sites {
 				okCall := true
-				for _, fr := range enclosingConds(c.P, info, fd.Body, call) {
-					if fr.Kind == "for" || fr.Kind == "range" || fr.Kind == "case" {
+				for _, b := range st.blks {
+					if inCycle(b) {
 						okCall = false
-						why = "inside a " + fr.Kind
-						continue
+						why = "inside a loop that may run zero times"
 					}
-					// accepted guards: document present (`ok`-style), non-empty path; anything mentioning the workspace is not
-					mentionsWorkspace := false
-					ast.Inspect(fr.Cond, func(y ast.Node) bool {
-						if se, ok := y.(*ast.SelectorExpr); ok {
-							if t := info.TypeOf(se); t != nil && strings.HasSuffix(types.TypeString(t, nil), "workspace.Workspace") {
-								mentionsWorkspace = true
+					for _, cc := range controlCondsPol(b) {
+						for v := range backSlice(cc.Cond) {
+							var ft types.Type
+							switch x := v.(type) {
+							case *ssa.FieldAddr:
+								ft = x.Type().Underlying().(*types.Pointer).Elem()
+							case *ssa.Field:
+								ft = x.Type()
+							}
+							if ft != nil && typeHasSuffix(ft, "workspace.Workspace") {
+								okCall = false
+								why = "only when a workspace exists (the call is control dependent on the server's workspace field)"
 							}
 						}
-						return true
-					})
-					if mentionsWorkspace {
-						okCall = false
-						why = "guarded by `" + exprStr(c.P.Fset, fr.Cond) + "`"
 					}
 				}
 				if okCall {
 					okAny = true
 				}
 			}
-			c.check(okAny, "G-INVALIDATE", fname, role+" invalidates the include cache", calls[0].Pos(),
+			c.check(okAny, "G-INVALIDATE", fname, role+" invalidates the include cache", sites[0].call.Pos(),
 				"the loader cache entry of the changed file is dropped whether or not a workspace exists",
-				"the loader cache is only invalidated "+why+": without a workspace root a changed included file stays cached forever")
+				"the loader cache is invalidated "+why+": without a workspace root a changed included file stays cached forever")
 		}
 	}
 	c.census("G-INVALIDATE", "change/save handlers", n, 2)
